@@ -68,5 +68,14 @@ func buildPipeline(g *scheduler.ExecutionGraph, stages []*stageDefinition, cfg *
 		}
 	}
 
+	// dependencies may be declared in any order, so they are checked when all stages are known
+	for name, stage := range g.Nodes() {
+		for _, dep := range stage.DependsOn {
+			if _, err := g.Node(dep); err != nil {
+				return nil, fmt.Errorf("stage %s depends on unknown stage %s", name, dep)
+			}
+		}
+	}
+
 	return g, nil
 }
